@@ -370,12 +370,27 @@ def run(chk, args):
     mct = threading.Thread(target=run_mc, args=(chk, wd, mc))
     mct.start()
 
+    crashes = []
+
     def one_group(g):
         tf = os.path.join(wd, "trace%d.ndjson" % g)
         dd = os.path.join(wd, "d%d" % g)
         os.makedirs(dd, exist_ok=True)
-        out, _ = vlib.run_harness(binp, ["-seed", str(chk.seed * 100 + g), "-windows", str(per_group), "-epoch", "10", "-dir", dd, "-out", tf],
-                                  timeout=3000)
+        out = None
+        for attempt in range(3):
+            try:
+                out, _ = vlib.run_harness(binp, ["-seed", str(chk.seed * 100 + g + 1000 * attempt), "-windows", str(per_group), "-epoch", "10",
+                                                 "-dir", dd, "-out", tf], timeout=3000)
+                break
+            except MachineryFault as ex:
+                # the process running the real database died (a panic in one of the database's own goroutines cannot be
+                # recovered by the driver): keep the evidence, try another workload; three in a row is a machinery fault
+                crashes.append(str(ex)[-3000:])
+                os.makedirs(vlib.REPLAYS, exist_ok=True)
+                open(os.path.join(vlib.REPLAYS, "C06-harness-crash-%d-%d-%d.txt" % (chk.seed, g, attempt)), "w").write(str(ex))
+                vlib.log("[c06] group %d: harness died (attempt %d): %s" % (g, attempt, str(ex)[-600:]))
+        if out is None:
+            raise MachineryFault("group %d: harness died three times: %s" % (g, crashes[-1]))
         hr = json.loads(out)
         vlib.log("[c06] group %d: harness done at +%.0fs" % (g, time.time() - chk.t0))
         lines = open(tf).readlines()
@@ -406,6 +421,8 @@ def run(chk, args):
             if not win.accepted:
                 rejected.append((win, lines))
             all_wins.append(win)
+    if crashes:
+        chk.notes.append({"harness-process-died": len(crashes), "last": crashes[-1][-1500:]})
     corrupted = {(w.group, w.epoch) for w in all_wins if w.audit and not w.accepted}
     counted = [w for w in all_wins if not w.audit]
     chk.cov["windows"] = len(counted)
@@ -476,10 +493,11 @@ def run(chk, args):
                 blamed = next((e for e in reversed(evs[:idx]) if e["ev"] == "Call" and e["c"] == stuck["c"]), None)
                 if blamed:
                     opn = op_name(blamed["op"])
-            # did a CompactIndex complete earlier in this epoch (before the stuck event)?
-            seq = stuck.get("seq", 1 << 62)
-            # (a CompactIndex that returns an error may still have restarted some of the indexes: any call counts)
-            compact = any('"Maint"' in x and '"compact"' in x and json.loads(x)["epoch"] == win.epoch and json.loads(x)["seq0"] < seq
+            # had CompactIndex been called on this database instance before the end of this window?  (The operation at fault can
+            # return later than the event the search gets stuck at; a CompactIndex that returns an error may still have
+            # restarted some of the indexes: any call counts.)
+            last_seq = max([e.get("seq", 0) for e in evs] + [0])
+            compact = any('"Maint"' in x and '"compact"' in x and json.loads(x)["epoch"] == win.epoch and json.loads(x)["seq0"] < last_seq
                           for x in glines)
             ctx = "CompactIndex-restart" if compact else "no-compaction"
             if win.audit:
@@ -498,7 +516,7 @@ def run(chk, args):
             if not chk.violation(sig, text, replay):
                 # known finding: keep the first window per signature for inspection (vlib only saves replays of violations)
                 os.makedirs(vlib.REPLAYS, exist_ok=True)
-                rp = os.path.join(vlib.REPLAYS, "C06-known-%s-%d.json" % (re.sub(r"[^A-Za-z0-9_.-]+", "_", sig)[:80], chk.seed))
+                rp = os.path.join(vlib.REPLAYS, "C06-known-%s-%d.json" % (re.sub(r"[^A-Za-z0-9_.-]+", "_", "%s:%s" % (cls, ctx))[:80], chk.seed))
                 if not os.path.exists(rp):
                     json.dump({"property": "C06", "signature": sig, "what": text, "seed": chk.seed, "replay": replay}, open(rp, "w"), indent=1)
         chk.cov["windows_rejected"] = len(rejected)
@@ -519,7 +537,10 @@ def run(chk, args):
             raise MachineryFault("MCKVLin: action %s never fired (vacuous sanity run): %s" % (a, cov))
     # ---- binding self-test
     if thorough or os.environ.get("VERIF_SELFTEST"):
-        selftest(chk, wd, [w for w in all_wins if w.accepted])
+        selftest(chk, wd, [w for w in all_wins if w.accepted and not w.audit])
+    chk.cov["rule"] = ("one trace = one window (40-60 operations, 3-6 clients, 8 keys, 2 sorted sets) of a real concurrent execution between two "
+                       "quiescent points; accepted iff TLC finds a linearization; database configuration (node size, flush threshold, "
+                       "snapshot renewal, compaction on/off, maintenance on/off, synced) rotates per database instance")
     chk.assumptions += ["Call/Ret sequence numbers are taken immediately before the call and immediately after the return (global atomic counter)",
                         "canonical-form search: Lin steps only immediately before a Ret event (complete: delaying a Lin step up to the next Ret preserves validity)",
                         "a window boundary is a quiescent point (no client call in flight); the maintenance goroutine keeps running across boundaries",
